@@ -60,6 +60,15 @@ fn laws_generic<T: PartialOrd + Clone + Debug>(a: T, b: T, obs: &mut Obs) -> PRe
     if let Ok(i) = r_new {
         all.push((i, Some(a.clone()), Some(b.clone()), "two"));
     }
+    // clone_from onto a destination of every kind must yield a copy equal to the source
+    for (src, _, _, sk) in all.iter() {
+        for (dst0, _, _, dk) in all.iter() {
+            obs.eval();
+            let mut d = dst0.clone();
+            d.clone_from(src);
+            ensure!(d == *src, format!("C14/clone_from/{dk}<-{sk}"), "clone_from of {src:?} onto {dst0:?} gives {d:?}");
+        }
+    }
     for (i, l, r, kind) in all {
         obs.evals(10);
         ensure!(i.low() == l && i.left() == l.as_ref() && i.low_as_ref() == l.as_ref(), format!("C14/accessor_low/{kind}"), "{i:?}: low()={:?} left()={:?} expected {l:?}", i.low(), i.left());
